@@ -186,8 +186,9 @@ class RenderContext:
 
         if not isinstance(root, str):
             if default == UNDEFINED:
-                hint = f"{root} is undefined"
-                return self.env.undefined(str(root), hint=hint, token=token)
+                name = _root_str(root)
+                hint = f"{name} is undefined"
+                return self.env.undefined(name, hint=hint, token=token)
             return default
 
         try:
@@ -233,8 +234,9 @@ class RenderContext:
 
         if not isinstance(root, str):
             if default == UNDEFINED:
-                hint = f"{root} is undefined"
-                return self.env.undefined(str(root), hint=hint, token=token)
+                name = _root_str(root)
+                hint = f"{name} is undefined"
+                return self.env.undefined(name, hint=hint, token=token)
             return default
 
         try:
@@ -629,6 +631,14 @@ class BuiltIn(Mapping[str, object]):
 builtin = BuiltIn()
 
 RE_PROPERTY = re.compile(r"[\u0080-\uFFFFa-zA-Z_][\u0080-\uFFFFa-zA-Z0-9_-]*")
+
+
+def _root_str(root: object) -> str:
+    try:
+        return str(root)
+    except ValueError:
+        # For example, an int with more digits than `sys.get_int_max_str_digits()`.
+        return f"<{type(root).__name__}>"
 
 
 def _segments_str(segments: list[object]) -> str:
